@@ -291,3 +291,48 @@ package eventlogger
 //@   ensures C01/event-carries-type-and-payload: old(t in b.graphs) ==> ev_kind(old(ev_n)) == "spawn:(*graph).process$1" && ev_a(old(ev_n), 0) == old(b.graphs[t]) && ev_a(old(ev_n), 1) == valof(ctx) && (forall E *Event :: E == ev_a(old(ev_n), 3) ==> fresh(E) && E.Type == t && E.Payload == payload && E.Formatted != nil && len(E.Formatted) == 0)
 //@   ensures unlocked: noLocksHeld()
 //@   ensures C04/single-critical-section: acquisitions(b.lock) <= old(acquisitions(b.lock)) + 1
+
+// ---- Reopen (C20) ----
+
+//@ iface Node.Reopen() (err)
+//@   requires C12/callback-free: cbfree()
+//@   assigns ctxdone
+
+//@ pure chainNodesNonNil(root *linkedNode) bool = forall j int :: 0 <= j && j < root.clen ==> root.chain[j].node != nil
+
+//@ pure wfPipelines(g *graph) bool = forall p PipelineID :: (p in view(g.roots.m)) ==> view(g.roots.m)[p] != nil && isChain(view(g.roots.m)[p].rootNode) && chainNodesNonNil(view(g.roots.m)[p].rootNode)
+
+//@ func (*graph).doReopen(ctx, node) (err)
+//@   ghostparam root *linkedNode, k int
+//@   requires isChain(root) && chainNodesNonNil(root) && 0 <= k && k < root.clen && node == root.chain[k]
+//@   requires C12/callback-free: cbfree()
+//@   assigns ev, ctxdone
+//@   ensures C20/nil-means-rest-of-chain-reopened: err == nil ==> (forall j int :: k <= j && j < root.clen ==> callsOn("Node.Reopen", root.chain[j].node) > old(callsOn("Node.Reopen", root.chain[j].node)))
+//@   ensures C20/error-is-a-node-failure: err != nil ==> (exists i int :: old(ev_n) <= i && i < ev_n && ev_kind(i) == "call:eventlogger.Node.Reopen" && ev_a(i, 5) == tagof(err) && ev_a(i, 6) == valof(err))
+//@   ensures C20/failure-is-reported: forall i int :: old(ev_n) <= i && i < ev_n && ev_kind(i) == "call:eventlogger.Node.Reopen" && ev_a(i, 5) != 0 ==> err != nil && tagof(err) == ev_a(i, 5) && valof(err) == ev_a(i, 6)
+//@   ghost call (*graph).doReopen#1 with root = root, k = k + 1
+//@   loop 1 invariant (forall i int :: old(ev_n) <= i && i < ev_n && ev_kind(i) == "call:eventlogger.Node.Reopen" ==> ev_a(i, 5) == 0) && callsOn("Node.Reopen", root.chain[k].node) > old(callsOn("Node.Reopen", root.chain[k].node)) && (rangeindex >= 0 ==> (forall j int :: k < j && j < root.clen ==> callsOn("Node.Reopen", root.chain[j].node) > old(callsOn("Node.Reopen", root.chain[j].node))))
+
+//@ pure carries(err error, t int, v int) bool = (tagof(err) == t && valof(err) == v) || wraps(err, errOf(t, v))
+
+//@ func (*graph).reopen(ctx) (err)
+//@   requires g != nil && wfPipelines(g)
+//@   requires C12/callback-free: cbfree()
+//@   assigns ev, ctxdone, multierror, box:*multierror.Error
+//@   ensures C20/nil-means-every-pipeline-reopened: err == nil ==> (forall p PipelineID, j int :: (p in view(g.roots.m)) && 0 <= j && j < view(g.roots.m)[p].rootNode.clen ==> callsOn("Node.Reopen", view(g.roots.m)[p].rootNode.chain[j].node) > old(callsOn("Node.Reopen", view(g.roots.m)[p].rootNode.chain[j].node)))
+//@   ensures C20/failure-is-reported-and-carried: forall i int :: old(ev_n) <= i && i < ev_n && ev_kind(i) == "call:eventlogger.Node.Reopen" && ev_a(i, 5) != 0 ==> err != nil && carries(err, ev_a(i, 5), ev_a(i, 6))
+//@   ghost call (*graph).doReopen#1 with root = pipeline.rootNode, k = 0
+//@   rangeloop 1 invariant errors == nil ==> (forall p PipelineID, j int :: seen(1, p) && 0 <= j && j < view(g.roots.m)[p].rootNode.clen ==> callsOn("Node.Reopen", view(g.roots.m)[p].rootNode.chain[j].node) > old(callsOn("Node.Reopen", view(g.roots.m)[p].rootNode.chain[j].node)))
+//@   rangeloop 1 invariant forall i int :: old(ev_n) <= i && i < ev_n && ev_kind(i) == "call:eventlogger.Node.Reopen" && ev_a(i, 5) != 0 ==> errors != nil && wraps(asIface(errors), errOf(ev_a(i, 5), ev_a(i, 6)))
+//@   rangeloop 1 invariant errors != nil ==> held_errors(errors) > 0
+
+//@ pure wfAllPipelines(b *Broker) bool = forall t EventType :: (t in b.graphs) ==> wfPipelines(b.graphs[t])
+
+//@ func (*Broker).Reopen(ctx) (err)
+//@   requires b != nil && noLocksHeld() && wfGraphs(b) && wfAllPipelines(b)
+//@   ensures C20/nil-means-every-node-reopened: err == nil ==> (forall t EventType, p PipelineID, j int :: (t in b.graphs) && (p in view(b.graphs[t].roots.m)) && 0 <= j && j < view(b.graphs[t].roots.m)[p].rootNode.clen ==> callsOn("Node.Reopen", view(b.graphs[t].roots.m)[p].rootNode.chain[j].node) > old(callsOn("Node.Reopen", view(b.graphs[t].roots.m)[p].rootNode.chain[j].node)))
+//@   ensures C20/failure-is-reported-and-carried: forall i int :: old(ev_n) <= i && i < ev_n && ev_kind(i) == "call:eventlogger.Node.Reopen" && ev_a(i, 5) != 0 ==> err != nil && carries(err, ev_a(i, 5), ev_a(i, 6))
+//@   ensures unlocked: noLocksHeld()
+//@   ensures C04/single-critical-section: acquisitions(b.lock) <= old(acquisitions(b.lock)) + 1
+//@   loop 1 invariant forall t EventType, p PipelineID, j int :: visited(t) && (p in view(b.graphs[t].roots.m)) && 0 <= j && j < view(b.graphs[t].roots.m)[p].rootNode.clen ==> callsOn("Node.Reopen", view(b.graphs[t].roots.m)[p].rootNode.chain[j].node) > old(callsOn("Node.Reopen", view(b.graphs[t].roots.m)[p].rootNode.chain[j].node))
+//@   loop 1 invariant forall i int :: old(ev_n) <= i && i < ev_n && ev_kind(i) == "call:eventlogger.Node.Reopen" ==> ev_a(i, 5) == 0
